@@ -23,7 +23,9 @@ class RunawayRun(BaseException):
 class Probe:
     """records activations / schedules of every Loop running while it is installed"""
 
-    def __init__(self, step_bound=400, total_bound=6000, check_clock=True):
+    def __init__(self, step_bound=400, total_bound=6000, check_clock=True, check_fifo=False):
+        self.check_fifo = check_fifo
+        self.last_idx = {}         # loop -> schedule index of the last activation of this step
         self.step_bound = step_bound
         self.total_bound = total_bound
         self.check_clock = check_clock
@@ -55,13 +57,21 @@ class Probe:
                                 ('activation due at %r still queued when clock reached %r', rec[1], now))
             self.last_time[loop] = now
             self.in_step[loop] = 0
+            self.last_idx[loop] = -1
         self.in_step[loop] += 1
         if self.in_step[loop] > self.step_bound:
             raise Livelock('more than %d activations at time %r' % (self.step_bound, now))
         # match with the schedule record
-        for rec in self.schedules:
+        for idx, rec in enumerate(self.schedules):
             if rec[0] is loop and not rec[5] and rec[2] is target and rec[3] is signal:
                 rec[5] = True
+                if self.check_fifo:
+                    # activities made runnable for one time run in the order they were made
+                    # runnable: schedule-call indices increase within a time step
+                    E.prove(idx > self.last_idx.get(loop, -1), 'fifo-turn-order',
+                            ('activation scheduled as #%d ran after #%d in the time step %r',
+                             idx, self.last_idx.get(loop, -1), now))
+                    self.last_idx[loop] = idx
                 if self.check_clock:
                     E.prove(EQ(rec[1], now), 'runs-at-due-time',
                             ('activation scheduled for %r ran at %r', rec[1], now))
